@@ -2,6 +2,7 @@ import Driver.Util
 import GFS.Base.Md5
 import GFS.Model.Front
 import GFS.Model.Uploader
+import GFS.Model.Upload
 import GFS.Spec.Multipart
 import GFS.Spec.S3
 import GFS.Spec.Listing
@@ -21,6 +22,7 @@ structure DState where
   vmode : Bool := false                       -- spec column from Spec.Versions
   vspec : SMap Spec.Versions.VBucket := []
   upl   : Upl := Upl.empty
+  ucfg  : UploadCfg := {}
   mspec : List Spec.Multipart.Upload := []
 
 def optNat (o : Option Nat) : String := match o with | some n => toString n | none => "-"
@@ -401,6 +403,28 @@ def stepState0 (st : DState) (toks : List String) : Option (DState × Out × Str
         | .panic _ => some ({ st with mem := m }, Out.ok, "panic", sp))
      | (m, .err c) => some ({ st with mem := m }, Out.err c, s!"err {c.name}", "-")
      | (m, .panic _) => some ({ st with mem := m }, Out.ok, "panic", "-"))
+  | ["ucfg", integ, limit] =>
+    let ig := integ == "1"
+    let uc : UploadCfg := ⟨ig, parseNat limit⟩
+    some ({ st with ucfg := uc }, Out.ok, "ok", "-")
+  | ["upload", b, k, cl, md5c, streaming, decoded, tail, md, body] =>
+    let mh : Md5Hdr := if md5c == "A" then .absent else if md5c == "E" then .empty else if md5c == "M" then .malformed
+      else .digest (fromHex (md5c.drop 2).toString)
+    let clv : Option Bytes := if cl == "~" then none else some (fromHex cl)
+    let dlv : Option Bytes := if decoded == "~" then none else some (fromHex decoded)
+    let isStreaming := streaming == "1"
+    let tl : BodyEnd := if tail == "fail" then .fail else .eof
+    let rq : UploadReq := ⟨clv, mh, isStreaming, dlv, parseMeta md, fromHex body, tl⟩
+    let (m, o) := Front.createObject md5 st.cfg st.ucfg st.mem (fromHex b) (fromHex k) rq
+    -- specification: either acknowledged (then the object is the body that arrived) or nothing changed
+    let sp := match o with
+      | .stored _ _ => "stored"
+      | .err .NotImplemented => "unknown"
+      | _ => "rejected-unchanged"
+    let spec' := match o with
+      | .stored _ _ => (Spec.S3.step st.spec (.put (fromHex b) (fromHex k) (match Front.uploadChecks md5 st.ucfg (fromHex k) rq with | .ok bs => bs | _ => []))).1
+      | _ => st.spec
+    some ({ st with mem := m, spec := spec' }, o, showOut o, sp)
   | ["vmode", v] => some ({ st with vmode := v == "1" }, Out.ok, "ok", "-")
   | _ => none
 
